@@ -1479,3 +1479,119 @@ func (c *Ctx) r109() {
 	c.R.Floor(rule, "delimiter-stripping slices", n, 10)
 	_ = judged
 }
+
+// R10.11: a cursor that is advanced by data is compared with the length before it is used as an index.
+func (c *Ctx) r1011() {
+	const rule = "R10.11"
+	c.R.Rule(rule, "package svg: an index expression v[j] whose index is a cursor — an int variable that is advanced by an amount read from the data (`j += n` with n a non-constant), not the induction variable of the enclosing loop — is dominated by the outcome `j < len(v)` of a comparison of that cursor with the length of v, with no advance of j in between. The viewBox rewriting walks its value with such a cursor; without the test a value that ends after a number (`viewBox=\"0 0 16.0\"`) is indexed at len(v) and the minifier panics")
+	for _, rel := range []string{"svg"} { // (in the other packages the cursor idioms differ — suffix lengths, sentinel bytes — and the rule would raise alarms on correct code)
+		pk := c.P.Pkg(rel)
+		if pk == nil {
+			continue
+		}
+		info := pk.TypesInfo
+		n := 0
+		for _, fd := range load.FuncDecls(pk) {
+			if fd.Body == nil {
+				continue
+			}
+			// cursors: `j += <non-constant>`
+			cursors := map[types.Object]bool{}
+			ast.Inspect(fd.Body, func(x ast.Node) bool {
+				as, ok := x.(*ast.AssignStmt)
+				if !ok || as.Tok != token.ADD_ASSIGN || len(as.Lhs) != 1 {
+					return true
+				}
+				id, ok := as.Lhs[0].(*ast.Ident)
+				if !ok {
+					return true
+				}
+				if _, isK := intConst(info, as.Rhs[0]); isK {
+					return true
+				}
+				if o := info.Uses[id]; o != nil && isIntType(o.Type()) {
+					cursors[o] = true
+				}
+				return true
+			})
+			if len(cursors) == 0 {
+				continue
+			}
+			g := c.graph(pk, fd)
+			lc := newLinCtx(c, info, g)
+			fname := pk.Name + "." + load.FuncName(fd)
+			seen := map[string]int{}
+			for _, y := range g.Nodes {
+				a := y.Ast()
+				if a == nil || y.Kind == flow.KRange || y.Kind == flow.KSelect {
+					continue
+				}
+				var root ast.Node = a
+				if y.Kind == flow.KCond {
+					root = y.Expr
+				}
+				ast.Inspect(root, func(x ast.Node) bool {
+					if _, isLit := x.(*ast.FuncLit); isLit {
+						return false
+					}
+					ix, ok := x.(*ast.IndexExpr)
+					if !ok {
+						return true
+					}
+					id, ok := ast.Unparen(ix.Index).(*ast.Ident)
+					if !ok || !cursors[info.Uses[id]] {
+						return true
+					}
+					if !isByteSlice(info.TypeOf(ix.X)) {
+						return true
+					}
+					v := nospace(str(ix.X))
+					j := info.Uses[id]
+					// an enclosing for statement whose condition bounds j makes j an induction variable
+					n++
+					seen[v+"["+id.Name+"]"]++
+					construct := fmt.Sprintf("%s/%s[%s]#%d below the length", fname, v, id.Name, seen[v+"["+id.Name+"]"])
+					good := false
+					for _, f := range g.DomFacts(y) {
+						if f.Test.Kind != flow.KCond {
+							continue
+						}
+						be, ok := ast.Unparen(f.Test.Expr).(*ast.BinaryExpr)
+						if !ok {
+							continue
+						}
+						l, r := nospace(str(be.X)), nospace(str(be.Y))
+						lenv := "len(" + v + ")"
+						below := false
+						switch {
+						case l == id.Name && r == lenv:
+							below = be.Op == token.LSS && f.Value || be.Op == token.GEQ && !f.Value
+						case l == lenv && r == id.Name:
+							below = be.Op == token.GTR && f.Value || be.Op == token.LEQ && !f.Value
+						}
+						if !below {
+							continue
+						}
+						// no advance of j between the test and the access
+						stale := false
+						for _, d := range lc.assign[j] {
+							if d != y && lc.reach(f.Test, d) && lc.reach(d, y) && !g.Dominates(d, f.Test) {
+								// an assignment that can happen after the test and before the access
+								if g.Path(flow.Search{From: []*flow.Node{d}, Goal: func(q *flow.Node) bool { return q == y }, Avoid: func(q *flow.Node) bool { return q == f.Test }}) != nil {
+									stale = true
+								}
+							}
+						}
+						if !stale {
+							good = true
+						}
+					}
+					// the same condition node reading v[j] after testing j there (short-circuit order) is handled by dominance of the leaf conditions
+					c.R.Check(good, rule, construct, c.pos(ix), "behind "+id.Name+" < len("+v+")", "the cursor "+id.Name+" is advanced by amounts taken from the data and then used as an index without a preceding comparison with len("+v+"): when the value ends there the access is out of range and the minifier panics")
+					return true
+				})
+			}
+		}
+		c.R.Floor(rule, "cursor-indexed reads in package "+rel, n, 2)
+	}
+}
